@@ -45,6 +45,26 @@ PROBE = {
 }
 
 
+# second manifestation of the same input class: a native token NAMED like a voucher path of the channel it is sent over
+# ("transfer/channel-0/uatomb" on A, where channel-0 is A's end of AB) is indistinguishable on the wire from the voucher of
+# B's uatomb, so B releases real uatomb from its escrow for tokens that were never vouchers.
+PROBE_SPOOF = {
+    "id": "probe-voucher-named-native", "kind": "case", "uniq": False, "kf": KF_CLASS, "bases": {"$B1": "transfer/channel-0/uatomb"},
+    "acts": [
+        {"a": "Fund", "c": "B", "acct": "u1", "base": "uatomb", "amt": 5, "valid": True},
+        {"a": "Transfer", "c": "B", "e": "AB.B", "proto": "v1", "sender": "u1", "signer": "u1", "receiver": "u2",
+         "denom": {"tr": [], "base": "uatomb"}, "amt": 3, "to": "t", "slash": False},
+        {"a": "Recv", "c": "A", "e": "AB.B", "seq": 1, "rl": "rly"},
+        {"a": "Ack", "c": "B", "e": "AB.B", "seq": 1, "rl": "rly"},
+        {"a": "Fund", "c": "A", "acct": "u3", "base": "$B1", "amt": 4, "valid": True},
+        {"a": "Transfer", "c": "A", "e": "AB.A", "proto": "v1", "sender": "u3", "signer": "u3", "receiver": "u3",
+         "denom": {"tr": [], "base": "$B1"}, "amt": 2, "to": "t", "slash": True},
+        {"a": "Recv", "c": "B", "e": "AB.A", "seq": 1, "rl": "rly"},
+        {"a": "Ack", "c": "A", "e": "AB.A", "seq": 1, "rl": "rly"},
+    ],
+}
+
+
 def sizes(tier):
     if tier == "quick":
         return dict(walks=16, depth=46, shards=12, max_hops=3,
@@ -336,7 +356,7 @@ def run_family(tier, seed, binary=None):
         raise errors[0]
     walks = gen["walks"]
     batches, tabledir, counts = gen["cases"]
-    scheds = walks + batches + [PROBE]
+    scheds = walks + batches + [PROBE, PROBE_SPOOF]
     vk.log("generated %d walks, %d case batches (%s) in %.1fs" % (len(walks), len(batches), counts, time.time() - t0))
     tfiles = drive(binary, scheds, workdir, "main", sz["shards"], seed)
     table = drive_table(binary, tabledir, workdir, "main", seed, sz["variants"])
